@@ -82,6 +82,12 @@ fn specs(which: Which, prop: &str, thorough: bool) -> Vec<Spec> {
                     v.push(Spec { sizes: vec![*n], wf: i % 2 == 1, sec, rho_inv: rho, kind: if *n == 0 { 1 } else if *n == 1 { 2 } else { 0 } });
                 }
             }
+            if prop == "C13" {
+                for n in [200usize, 300, 512] {
+                    v.push(Spec { sizes: vec![n], wf: true, sec: 128, rho_inv: 4, kind: 0 });
+                    v.push(Spec { sizes: vec![n], wf: false, sec: 128, rho_inv: 2, kind: 0 });
+                }
+            }
             v.push(Spec { sizes: vec![7, 7], wf: true, sec: 128, rho_inv: 4, kind: 1 });
             v.push(Spec { sizes: vec![9], wf: false, sec: 128, rho_inv: 4, kind: 3 });
             v.push(Spec { sizes: vec![12, 3, 40], wf: true, sec: 128, rho_inv: 4, kind: 0 });
@@ -946,6 +952,67 @@ fn c13_columns<S: Lc>(ctx: &mut Ctx, id: &str, rng: &mut Rng, spec: &Spec) {
         }
         ctx.rep.case(&format!("{} column mutation {:?}", describe(run), m), Some(format!("{}/columns/{:?}/{:?}/{}", S::NAME, m, spec.sizes, spec.wf)));
     }
+    repeated_slot_tamper::<S>(ctx, id, spec, run);
+}
+
+/// Positions are sampled with replacement, so a position may be opened in several slots of one proof.  EVERY
+/// slot must be authenticated: the columns sitting in slots whose position already occurred earlier are moved
+/// by a vector orthogonal to the public test vectors (`b`, and the well-formedness challenge `r`), so that
+/// only the Merkle path can tell; the proof must not be accepted.
+fn repeated_slot_tamper<S: Lc>(ctx: &mut Ctx, id: &str, spec: &Spec, run: &Run<S>) {
+    let cid = format!("{}/repeated-slot-tamper", id);
+    let c = &run.comms[0];
+    let p0 = &run.proof[0];
+    let (n, m) = (c.metadata.n_rows, c.metadata.n_cols);
+    let wf = run.pp.check_well_formedness();
+    let (_a, b) = match tensor::<S>(&run.point, m, n) {
+        Ok(x) => x,
+        Err(_) => return,
+    };
+    let (r, idx, _) = match transcript::<S>(&run.pp, c, &run.point, &p0.opening.v, &p0.well_formedness, &run.pre) {
+        Some(x) => x,
+        None => return,
+    };
+    let mut delta = vec![Fr::zero(); n];
+    if wf {
+        if n < 3 || r.len() < 3 {
+            ctx.rep.count(&format!("{}/repeated-slot-skipped-few-rows", S::NAME));
+            return;
+        }
+        delta[0] = b[1] * r[2] - b[2] * r[1];
+        delta[1] = b[2] * r[0] - b[0] * r[2];
+        delta[2] = b[0] * r[1] - b[1] * r[0];
+    } else {
+        if n < 2 {
+            ctx.rep.count(&format!("{}/repeated-slot-skipped-few-rows", S::NAME));
+            return;
+        }
+        delta[0] = b[1];
+        delta[1] = -b[0];
+    }
+    if delta.iter().all(|x| x.is_zero()) || !inner(&b, &delta).is_zero() || (wf && !inner(&r, &delta).is_zero()) {
+        return;
+    }
+    let mut seen = std::collections::BTreeSet::new();
+    let repeated: Vec<usize> = (0..idx.len().min(p0.opening.columns.len())).filter(|&j| !seen.insert(idx[j])).collect();
+    if repeated.is_empty() {
+        ctx.rep.count(&format!("{}/repeated-slot-none", S::NAME));
+        return;
+    }
+    let mut proof = run.proof.clone();
+    for &j in &repeated {
+        for (x, d) in proof[0].opening.columns[j].iter_mut().zip(&delta) {
+            *x += *d;
+        }
+    }
+    let out = decide::<S>(ctx, &cid, &run.pp, &run.comms, &run.point, &run.values, &proof, &run.pre);
+    if out.accepted() {
+        ctx.rep.expect_fail(&cid, &format!("lincode/unauthenticated-column-accepted/{}/repeated-position", S::NAME),
+            &format!("a proof in which {} of the {} opened columns (those at positions already opened in an earlier slot) are not columns of the committed matrix was accepted", repeated.len(), idx.len()),
+            replay::<S>(&cid, ctx.seed, spec, &describe(run)));
+    }
+    ctx.rep.count(&format!("{}/repeated-slot-tamper", S::NAME));
+    ctx.rep.case(&format!("{} repeated-slot tamper: {} of {} slots, wf={}", describe(run), repeated.len(), idx.len(), wf), Some(format!("{}/repeated-slot/{:?}/{}", S::NAME, spec.sizes, spec.wf)));
 }
 
 /// D5: with the bool of `Path::verify` dropped, a prover who knows the commitment's columns can prove
